@@ -34,3 +34,18 @@ func init() {
 		return viol, true
 	})
 }
+
+// C01 also says Reports() is a function of its arguments: the report codecs it calls are long-lived objects of the
+// node, so a sample of the EVM codec cases runs under C01 as well — each encode is done by a codec that has
+// encoded every earlier case of the run and by a fresh one, and the bytes must agree (see evmEncodeOp).
+func init() {
+	RegGen("C01", "plus a sample of the EVM report-codec cases, each encoded by a long-lived codec instance and by a fresh one", func(g *G) {
+		sub := &G{R: g.R, Tier: g.Tier, Prop: g.Prop}
+		sub.emit = func(c Case) {
+			if strings.HasPrefix(jStr(c.Op["op"]), "evm.encode") && g.R.Intn(3) == 0 {
+				g.emit(c)
+			}
+		}
+		genC12(sub)
+	})
+}
